@@ -9,6 +9,7 @@ import KrakenModel.Model.AnnounceQueue
         (ignored when the control of h belongs to a newer dispatcher — the C17 fix)
     state.removeTorrent (RemoveTorrent, idle preemption)                             Eject h
         (`rep = false`, the code as it was: only when the dispatcher is not complete)
+    newTorrentEvent on an evicted blob (control complete, torrent on disk not)      Eject h, Add h
     announceTickEvent        Next until a torrent that is neither saturated nor unknown comes out;
                              saturated ones are skipped and made Ready again afterwards, unknown ones
                              stay pending
@@ -26,11 +27,18 @@ structure State where
   notices : List (Hash × Nat) := []
   nextGen : Nat := 0
   q : AnnounceQueue.State := {}
+  /-- announce requests sent to the tracker and not yet answered, per torrent: started by an announce tick,
+      but also directly (bypassing the queue) by `newTorrentEvent` ("immediately announce new torrents") and
+      by `dispatcherCompleteEvent` ("immediately announce completed torrents") -/
+  inflight : Hash → Nat := fun _ => 0
 
 inductive Action where
-  /-- a download request / incoming connection for torrent `h` (`cached`: the blob is already in the
-      cache, so the new dispatcher is complete at once) -/
-  | request (h : Hash) (cached : Bool)
+  /-- a download request for torrent `h` (`newTorrentEvent`); `disk` = the torrent the caller created from
+      the archive is complete (the blob is in the cache). With a complete control and `disk = false` (the blob
+      was evicted from the cache) the control is removed and the torrent added again. -/
+  | request (h : Hash) (disk : Bool)
+  /-- an incoming connection for a torrent (`addIncomingConn`): adds the torrent when it has no control -/
+  | incoming (h : Hash) (disk : Bool)
   /-- the last piece is written on the dispatcher's goroutine -/
   | finish (h : Hash)
   /-- the completion notice of dispatcher `g` of torrent `h` is applied -/
@@ -57,9 +65,28 @@ def tickOps (sat known : Hash → Bool) : Nat → AnnounceQueue.State → List H
       else if !known h then .next :: tickOps sat known fuel (next q).1 skipped
       else .next :: skipped.reverse.map .ready
 
+/-- `state.removeTorrent`'s queue call for a control with completeness `complete` -/
+def removeOps (rep : Bool) (h : Hash) (complete : Bool) : List Op :=
+  if rep || !complete then [.eject h] else []
+
+/-- the torrent an announce tick ends up announcing (the last `Next` result when the loop broke out) -/
+def tickAnnounced (sat known : Hash → Bool) : Nat → AnnounceQueue.State → Option Hash
+  | 0, _ => none
+  | fuel + 1, q =>
+    match (next q).2 with
+    | none => none
+    | some h =>
+      if sat h then tickAnnounced sat known fuel (next q).1
+      else if !known h then tickAnnounced sat known fuel (next q).1
+      else some h
+
 /-- the queue operations an action performs in state `s` -/
 def queueOps (rep : Bool) (s : State) : Action → List Op
-  | .request h _ => if (s.ctrl h).isSome then [] else [.add h]
+  | .request h disk =>
+    match s.ctrl h with
+    | some (_, complete) => if complete && !disk then removeOps rep h complete ++ [.add h] else []
+    | none => [.add h]
+  | .incoming h _ => if (s.ctrl h).isSome then [] else [.add h]
   | .finish _ => []
   | .notice h g =>
     if (h, g) ∈ s.notices then
@@ -69,30 +96,55 @@ def queueOps (rep : Bool) (s : State) : Action → List Op
     else []
   | .remove h =>
     match s.ctrl h with
-    | some (_, complete) => if rep || !complete then [.eject h] else []
+    | some (_, complete) => removeOps rep h complete
     | none => []
   | .announceTick sat =>
     tickOps (fun h => decide (h ∈ sat)) (fun h => (s.ctrl h).isSome) (s.q.ready.length + 1) s.q []
-  | .announceResult h => if (s.ctrl h).isSome then [.ready h] else []
-  | .announceErr h => [.ready h]
+  | .announceResult h => if s.inflight h = 0 then [] else if (s.ctrl h).isSome then [.ready h] else []
+  | .announceErr h => if s.inflight h = 0 then [] else [.ready h]
 
 def setCtrl (s : State) (h : Hash) (c : Option (Nat × Bool)) : State :=
   { s with ctrl := fun k => if k = h then c else s.ctrl k }
 
+def addInflight (s : State) (h : Hash) : State :=
+  { s with inflight := fun k => if k = h then s.inflight k + 1 else s.inflight k }
+
+def subInflight (s : State) (h : Hash) : State :=
+  { s with inflight := fun k => if k = h then s.inflight k - 1 else s.inflight k }
+
+/-- `addTorrent`: a new control (and, over a cached blob, its completion notice at once) -/
+def addCtrl (s : State) (h : Hash) (disk : Bool) : State :=
+  let s' := setCtrl { s with nextGen := s.nextGen + 1 } h (some (s.nextGen, disk))
+  if disk then { s' with notices := s.notices ++ [(h, s.nextGen)] } else s'
+
 /-- the effect of an action on the scheduler's own bookkeeping -/
 def bookkeeping (s : State) : Action → State
-  | .request h cached =>
-    if (s.ctrl h).isSome then s
-    else
-      let s' := setCtrl { s with nextGen := s.nextGen + 1 } h (some (s.nextGen, cached))
-      if cached then { s' with notices := s.notices ++ [(h, s.nextGen)] } else s'
+  | .request h disk =>
+    match s.ctrl h with
+    | some (_, complete) =>
+      if complete && !disk then addInflight (addCtrl s h false) h     -- evicted: removed, added again, announced
+      else if complete then s
+      else addInflight s h                                              -- joins the download: announced again
+    | none => if disk then addCtrl s h true else addInflight (addCtrl s h false) h
+  | .incoming h disk => if (s.ctrl h).isSome then s else addCtrl s h disk
   | .finish h =>
     match s.ctrl h with
     | some (g, false) => { setCtrl s h (some (g, true)) with notices := s.notices ++ [(h, g)] }
     | _ => s
-  | .notice h g => { s with notices := s.notices.erase (h, g) }
+  | .notice h g =>
+    if (h, g) ∈ s.notices then
+      let s' := { s with notices := s.notices.erase (h, g) }
+      match s.ctrl h with
+      | some (g', _) => if g' = g then addInflight s' h else s'       -- completion: announced at once
+      | none => s'
+    else s
   | .remove h => setCtrl s h none
-  | _ => s
+  | .announceTick sat =>
+    match tickAnnounced (fun h => decide (h ∈ sat)) (fun h => (s.ctrl h).isSome) (s.q.ready.length + 1) s.q with
+    | some h => addInflight s h
+    | none => s
+  | .announceResult h => subInflight s h
+  | .announceErr h => subInflight s h
 
 def step (rep : Bool) (s : State) (a : Action) : State :=
   let ops := queueOps rep s a
